@@ -2,33 +2,45 @@
 EXTENDS Disabled, TLC, Json
 CONSTANTS Kinds,      \* set of handler lists (Greedy, of Disabled.tla, is a constant too)
           MaxOps, DoEmit
-VARIABLES kind, x, known, n, obs
-vars == <<kind, x, known, n, obs>>
+VARIABLES kind, x, known, n, obs,
+          memo        \* the configuration the context's remembered dummy hash was made under: "unset", "with" or "without" the real scheme
+vars == <<kind, x, known, n, obs, memo>>
+Cfg(k) == IF k THEN "with" ELSE "without"
 Obs0 == [op |-> "init", arg |-> "", res |-> <<"ok">>]
-Init == kind \in Kinds /\ x \in (Stored \ {"D"}) /\ known = TRUE /\ n = 0 /\ obs = Obs0
+Init == kind \in Kinds /\ x \in (Stored \ {"D"}) /\ known = TRUE /\ n = 0 /\ obs = Obs0 /\ memo = "unset"
 Step == n < MaxOps /\ n' = n + 1 /\ kind' = kind
-DisableA == /\ Step /\ known' = known
+DisableA == /\ Step /\ known' = known /\ memo' = memo
             /\ LET r == Disable(kind, x) IN x' = r[2] /\ obs' = [op |-> "disable", arg |-> x, res |-> r]
-EnableA  == /\ Step /\ x \notin {"None"} /\ known' = known
+EnableA  == /\ Step /\ x \notin {"None"} /\ known' = known /\ memo' = memo
             /\ LET r == Enable(kind, known, x) IN
                /\ x' = IF r[1] = "ok" /\ r[2] # "Dtail" THEN r[2] ELSE x
                /\ obs' = [op |-> "enable", arg |-> x, res |-> r]
+\* a missing credential costs a dummy verification, whose hash is made once per configuration and remembered
 VerifyA(right) == /\ Step /\ UNCHANGED <<x, known>>
+                  /\ memo' = IF x = "None" THEN Cfg(known) ELSE memo
                   /\ obs' = [op |-> "verify", arg |-> IF right THEN "right" ELSE "wrong", res |-> <<Verify(kind, known, right, x)>>]
-IsEnabledA == /\ Step /\ UNCHANGED <<x, known>> /\ x # "None"
+IsEnabledA == /\ Step /\ UNCHANGED <<x, known, memo>> /\ x # "None"
               /\ obs' = [op |-> "is_enabled", arg |-> x, res |-> <<IsEnabled(kind, known, x)>>]
 \* load() of a configuration without (resp. again with) the real scheme; the disabled handlers stay
-ReloadA == /\ Step /\ x' = x /\ known' = ~known
-           /\ obs' = [op |-> "reload", arg |-> IF known THEN "drop" ELSE "restore", res |-> <<"ok">>]
-Next == DisableA \/ EnableA \/ IsEnabledA \/ ReloadA \/ \E r \in BOOLEAN : VerifyA(r)
+\* by any route - load(mapping), load(text), update(...) in place: every one forgets the remembered dummy hash
+Routes == {"load", "text", "update"}
+ReloadA(how) == /\ Step /\ x' = x /\ known' = ~known /\ memo' = "unset"
+                /\ obs' = [op |-> "reload", arg |-> (IF known THEN "drop" ELSE "restore") \o ":" \o how, res |-> <<"ok">>]
+Next == DisableA \/ EnableA \/ IsEnabledA \/ (\E how \in Routes : ReloadA(how)) \/ \E r \in BOOLEAN : VerifyA(r)
 Rnd(S, d) == IF d >= 0 THEN RandomElement(S) ELSE CHOOSE e \in S : TRUE
 SimNext == \E w \in {Rnd(1..10, n)}, b \in {Rnd(BOOLEAN, n)} :
-           CASE w \in {1, 2, 3} -> DisableA [] w \in {4, 5} -> EnableA [] w = 6 -> IsEnabledA [] w = 7 -> ReloadA [] OTHER -> VerifyA(b)
+           CASE w \in {1, 2, 3} -> DisableA [] w \in {4, 5} -> EnableA [] w = 6 -> IsEnabledA [] w = 7 -> (\E how \in {Rnd(Routes, n)} : ReloadA(how)) [] OTHER -> VerifyA(b)
+\* histories of an account that does not exist, across reconfigurations by every route
+InitNone == kind \in Kinds /\ x = "None" /\ known = TRUE /\ n = 0 /\ obs = Obs0 /\ memo = "unset"
+SimNextNone == \E w \in {Rnd(1..5, n)}, b \in {Rnd(BOOLEAN, n)} :
+               CASE w \in {1, 2, 3} -> VerifyA(b) [] OTHER -> (\E how \in {Rnd(Routes, n)} : ReloadA(how))
 
 \* a disabled account never logs in
 InvNoLogin == (obs.op = "verify" /\ obs.res[1] = "True") => x = "H"
 \* a missing credential never logs in and is never an error, whatever was (re)configured before
 InvNoneFalse == (obs.op = "verify" /\ x = "None") => obs.res = <<"False">>
+\* the remembered dummy hash always belongs to the configuration in force
+InvMemoCurrent == memo # "unset" => memo = Cfg(known)
 \* what disable() produces is recognised as disabled and stays so when disabled again
 InvDisableDisables == obs.op = "disable" => (IsDisabled(kind, known, x) /\ Disable(kind, x)[1] = "ok" /\ IsDisabled(kind, known, Disable(kind, x)[2]))
 \* disable then enable restores the original hash exactly (schemes that embed it)
@@ -40,5 +52,5 @@ EnableNormal == [][(obs'.op = "enable" /\ obs'.arg = "H" /\ known) => (obs'.res 
 \* the original hash is never lost by disabling an account that has one (unix style first)
 InvHashKept == (kind[1] # "django" /\ obs.op = "disable" /\ obs.arg \in {"H", "M1H", "M2H"}) => x \in {"M1H", "M2H"}
 Emit == DoEmit => PrintT(<<"EMIT", ToJson([n |-> n, kind |-> kind, op |-> obs'.op, arg |-> obs'.arg, res |-> obs'.res,
-                                           x0 |-> IF n = 0 THEN x ELSE "", x |-> x', known |-> known'])>>)
+                                           x0 |-> IF n = 0 THEN x ELSE "", x |-> x', known |-> known', memo |-> memo'])>>)
 =============================================================================
